@@ -57,7 +57,7 @@ inductive Step (g : Graph) (lim : Option Nat) : St → Label → St → Prop
       Step g lim s .cRecv { s with ch := rest, received := v :: s.received, expect := s.expect - 1,
                                    cSched := some ⟨g.post v, .next⟩ }
   | cCtxDone {s : St} :
-      s.cAlive = true → s.cSched = none → s.cancelled = true →
+      s.cAlive = true → s.cSched = none → s.cancelled = true → s.m = none →
       Step g lim s .cCtxDone { s with cAlive := false }
 
 theorem step?_sound {g : Graph} {lim : Option Nat} {s s' : St} {l : Label}
@@ -151,7 +151,7 @@ theorem step?_sound {g : Graph} {lim : Option Nat} {s s' : St} {l : Label}
     split at h
     · rename_i hsel
       simp only [Bool.and_eq_true, Option.isNone_iff_eq_none] at hsel
-      cases h; exact .cCtxDone hsel.1.1 hsel.1.2 hsel.2
+      cases h; exact .cCtxDone hsel.1.1.1 hsel.1.1.2 hsel.1.2 hsel.2
     · cases h
 
 /-! ### `getSched` / `putSched` -/
